@@ -38,7 +38,6 @@ OPS = {
     "C09": ["stream"],
     "C10": ["di.roundtrip", "di.parse"],
     "C11": ["di.parse", "di.classify"],
-    "C12": ["dg.patchb"],
     "C13": ["dg.patchb", "dg.fileb", "dg.name"],
     "C14": ["pl.parse", "pl.entry"],
     "C15": ["pl.query"],
